@@ -64,6 +64,12 @@ func runMPT(args []string) (map[string]any, error) {
 	for i := 0; i < *c.n; i++ {
 		run(exec.MHist{Ops: exec.GenMPTHistory(r, *maxOps)}, r.Intn(1000), *shapeEvery)
 	}
+	// large-scope store scenarios (one multi-put of several hundred nodes): 1 per 500 random histories, at least 3
+	nbulk := 3 + *c.n/500
+	for i := 0; i < nbulk; i++ {
+		tid++
+		exec.RunMPTBulk(w, st, tid, r)
+	}
 	exec.EmitRootGroups(w, st, 0)
 	if err := w.Close(); err != nil {
 		return nil, err
@@ -74,7 +80,7 @@ func runMPT(args []string) (map[string]any, error) {
 	}
 	sort.Strings(classes)
 	return map[string]any{
-		"traces": st.Traces, "events": st.Events + 1, "tlc_histories": nTLC, "go_histories": *c.n,
+		"traces": st.Traces, "events": st.Events + 1, "tlc_histories": nTLC, "go_histories": *c.n, "bulk_scenarios": nbulk,
 		"distinct_contents": len(st.Contents), "root_groups": len(st.RootGroups), "distinct_roots": in.Len(),
 		"node_classes": classes, "panics": st.Panics, "samples": w.Samples, "shard_events": w.Events,
 	}, nil
